@@ -6,6 +6,7 @@ import (
 	"encoding/json"
 	"fmt"
 	"io"
+	"math"
 	"sort"
 	"strconv"
 
@@ -2083,6 +2084,16 @@ func (r *Resolvable) walkInteger(i *Integer, value *astjson.Value) bool {
 	if value.Type() != astjson.TypeNumber {
 		r.marshalBuf = value.MarshalTo(r.marshalBuf[:0])
 		r.addError(fmt.Sprintf("Int cannot represent non-integer value: \"%s\"", string(r.marshalBuf)), i.Path)
+		return r.err()
+	}
+	// GraphQL Int is an integral value in the signed 32-bit range; a JSON number is not enough
+	if number, err := value.Float64(); err != nil || number != math.Trunc(number) {
+		r.marshalBuf = value.MarshalTo(r.marshalBuf[:0])
+		r.addError(fmt.Sprintf("Int cannot represent non-integer value: \"%s\"", string(r.marshalBuf)), i.Path)
+		return r.err()
+	} else if number < math.MinInt32 || number > math.MaxInt32 {
+		r.marshalBuf = value.MarshalTo(r.marshalBuf[:0])
+		r.addError(fmt.Sprintf("Int cannot represent non 32-bit signed integer value: \"%s\"", string(r.marshalBuf)), i.Path)
 		return r.err()
 	}
 	if r.render() {
